@@ -51,6 +51,17 @@ def mask_specs(ctx):
                 init = {"random": n_inits}
             out.append(dict(name=name, space=space, table=table, mask=script, calls=[dict(n_iter=n_iter, memory=False, verbosity=False)],
                             seed=rng.randrange(10 ** 6), init=init, cfg=cfg, meta=meta, feasible=feas_, constraint_desc=desc_))
+    # population optimizers: an all-invalid prefix covering the whole initialisation of a small population (every member's first score)
+    # and the first iteration steps, for each kind
+    for name in gen.POPULATION:
+        pop = 4 if name in ("GeneticAlgorithmOptimizer", "DifferentialEvolutionOptimizer") else 3
+        for kind in (NAN, -INF, INF):
+            space, meta = gen.gen_space(rng, ndims=2, sizes=(3, 5, 8), max_points=64)
+            table, _ = gen.gen_table(rng, space, kind="unimodal")
+            n_iter = pop + 12
+            script = [kind] * (pop + 2) + [None] * (n_iter - pop - 2)
+            out.append(dict(name=name, space=space, table=table, mask=script, calls=[dict(n_iter=n_iter, memory=False, verbosity=False)],
+                            seed=rng.randrange(10 ** 6), init={"random": 2}, cfg=dict(population=pop), meta=meta, feasible=None, constraint_desc=None))
     return out
 
 
